@@ -81,12 +81,15 @@ def run(tier, replay=None):
         rc, out = sh([exe, share, lst, rs, outf], check=False, timeout=1800)
         if rc != 0:
             raise RuntimeError("drv_ecplib failed: " + out[-2000:])
+        shared_mm = [l for l in out.splitlines() if l.startswith("SHAREDMISMATCH")]
+        sh_line = [l for l in out.splitlines() if l.startswith("SHARED ")]
+        res.cov["loads_into_one_long_lived_basis"] = int(sh_line[0].split()[1].split("=")[1]) if sh_line else 0
         maxl = int(re.search(r"#define LIBECPINT_MAX_L (\d+)", open(os.path.join(root, "b/include/libecpint/config.hpp")).read()).group(1))
         rc, out = sh([os.path.join(OCAML, "drv_ecplib"), tokf, outf, str(maxl), rs], check=False, timeout=1800)
         summ = [l for l in out.splitlines() if l.startswith("SUMMARY")]
         if rc != 0 or not summ:
             raise RuntimeError("model driver failed: " + out[-2000:])
-        mm = [l for l in out.splitlines() if l.startswith("MISMATCH")]
+        mm = [l for l in out.splitlines() if l.startswith("MISMATCH")] + [l.replace("SHAREDMISMATCH", "MISMATCH", 1) for l in shared_mm]
         kv = dict(x.split("=") for x in summ[0].split()[1:])
         res.cov["evaluations"] = int(kv["cases"]); res.cov["distinct_nontrivial"] = int(kv["cases"])
         res.cov["quantities_compared"] = int(kv["compared"]); res.cov["elements"] = nel; res.cov["primitives"] = npr
